@@ -48,7 +48,8 @@ CONTRACTS = {
             'own-value-kept': 'des_var_node in self._des_var_values and self._des_var_values[des_var_node] == value',
             'linked-so-far': ('forall(j, 0, k, implies(decision_constraint.nodes[j] != des_var_node, decision_constraint.nodes[j] in self._des_var_values and '
                               'indomain(decision_constraint.nodes[j], self._des_var_values[decision_constraint.nodes[j]]) and '
-                              'implies(des_var_node.options is not None and len(decision_constraint.nodes[j].options) == len(des_var_node.options), self._des_var_values[decision_constraint.nodes[j]] == value)))'),
+                              'implies(des_var_node.options is not None and len(decision_constraint.nodes[j].options) == len(des_var_node.options), self._des_var_values[decision_constraint.nodes[j]] == value) and '
+                              'implies(des_var_node.options is not None, self._des_var_values[decision_constraint.nodes[j]] == clampidx(value, len(decision_constraint.nodes[j].options)))))'),
             'linked-rel-so-far': ('forall(j, 0, k, implies(decision_constraint.nodes[j] != des_var_node and des_var_node.options is None, '
                                   '(self._des_var_values[decision_constraint.nodes[j]] - decision_constraint.nodes[j].bounds[0]) * (des_var_node.bounds[1] - des_var_node.bounds[0]) == '
                                   '(value - des_var_node.bounds[0]) * (decision_constraint.nodes[j].bounds[1] - decision_constraint.nodes[j].bounds[0])))'),
@@ -67,6 +68,9 @@ CONTRACTS = {
                                                        'final_decision_constraint.nodes[j] in self._des_var_values and indomain(final_decision_constraint.nodes[j], self._des_var_values[final_decision_constraint.nodes[j]]))))'),
             'linked-discrete-same-index': ('property', 'implies(final_decision_constraint is not None and des_var_node.options is not None, forall(j, 0, len(final_decision_constraint.nodes), implies(final_decision_constraint.nodes[j] != des_var_node and len(final_decision_constraint.nodes[j].options) == len(des_var_node.options), '
                                                        'self._des_var_values[final_decision_constraint.nodes[j]] == self._des_var_values[des_var_node])))'),
+            # statement of C16 / C13: every linked discrete node carries the same option index, clamped to its own range
+            'linked-discrete-index-clamped-to-own-range': ('property', 'implies(final_decision_constraint is not None and des_var_node.options is not None, forall(j, 0, len(final_decision_constraint.nodes), implies(final_decision_constraint.nodes[j] != des_var_node, '
+                                                       'self._des_var_values[final_decision_constraint.nodes[j]] == clampidx(self._des_var_values[des_var_node], len(final_decision_constraint.nodes[j].options)))))'),
             'linked-continuous-same-relative-position': ('property', 'implies(final_decision_constraint is not None and des_var_node.options is None, forall(j, 0, len(final_decision_constraint.nodes), implies(final_decision_constraint.nodes[j] != des_var_node, '
                                                        '(self._des_var_values[final_decision_constraint.nodes[j]] - final_decision_constraint.nodes[j].bounds[0]) * (des_var_node.bounds[1] - des_var_node.bounds[0]) == '
                                                        '(self._des_var_values[des_var_node] - des_var_node.bounds[0]) * (final_decision_constraint.nodes[j].bounds[1] - final_decision_constraint.nodes[j].bounds[0]))))'),
@@ -75,3 +79,40 @@ CONTRACTS = {
         unchanged_on_raise=False,
     ),
 }
+
+
+def _domain_set_value(n):
+    import random, os
+    from adsg_core.graph.adsg_basic import BasicDSG
+    from adsg_core.graph.adsg_nodes import NamedNode, DesignVariableNode
+    from adsg_core.graph.choice_constraints import ChoiceConstraintType
+    rng = random.Random(8600 + int(os.environ.get('VERIF_SEED', '0') or 0))
+    for _ in range(n):
+        discrete = rng.random() < 0.6
+        k = rng.randint(1, 3)
+        root = NamedNode('root')
+        dvs = []
+        for i in range(k):
+            if discrete:
+                dvs.append(DesignVariableNode(f'd{i}', options=[f'o{j}' for j in range(rng.randint(1, 5))]))
+            else:
+                lo = rng.choice([-1.0, 0.0, 10.0])
+                dvs.append(DesignVariableNode(f'd{i}', bounds=(lo, lo + rng.choice([1.0, 2.5, 20.0]))))
+        dsg = BasicDSG()
+        dsg.add_edges([(root, d) for d in dvs])
+        dsg = dsg.set_start_nodes({root})
+        if k >= 2 and rng.random() < 0.85:
+            dsg = dsg.constrain_choices(ChoiceConstraintType.LINKED, dvs)
+        node = rng.choice(dvs)
+        if discrete:
+            value = rng.choice([-1, 0, 1, 2, 3, 4, 6, 1.0, 2.0])
+        else:
+            value = rng.choice([node.bounds[0] - 1, node.bounds[0], (node.bounds[0] + node.bounds[1]) / 2, node.bounds[1], node.bounds[1] + 3])
+        env = {'self': dsg, 'des_var_node': node, 'value': value, 'final_decision_constraint': dsg.is_constrained_choice(node)}
+        yield (env, (lambda dsg=dsg, node=node, value=value: dsg.set_des_var_value(node, value)), {},
+               f'DSG with linked={dsg.is_constrained_choice(node) is not None} nodes {[(d.name, d.options or d.bounds) for d in dvs]}: '
+               f'set_des_var_value({node.name}, {value})')
+
+
+DOMAIN = dict(globals().get('DOMAIN', {}))
+DOMAIN[A + 'DSG.set_des_var_value'] = _domain_set_value
